@@ -116,12 +116,40 @@ def full_ranges():
     return out
 
 
+PRELUDE = [L.const('R8', 'x8'), L.const('R9', 's1'), L.const('RSP', 'sp'), L.const('RA', 'ra'), L.const('K4', '4'), L.const('K16', '16'), L.const('S3', '3'), L.const('KM1', '-1')]
+
+
+def symbolic():
+    """eligible instructions and pseudo-instructions whose operands are written as constants / register aliases (literal, not label-dependent)"""
+    I = progs.I
+    out = [
+        I('addi', 'mv R8, R9', rd=8, rs1=9, imm=0), I('addi', 'mv R8, x9', rd=8, rs1=9, imm=0), I('addi', 'mv x8, R9', rd=8, rs1=9, imm=0),
+        I('jalr', 'jr R8', rd=0, rs1=8, imm=0), I('jalr', 'jalr R9', rd=1, rs1=9, imm=0), I('jalr', 'jalr x0, RA, 0', rd=0, rs1=1, imm=0),
+        I('addi', 'addi R8, R8, K4', rd=8, rs1=8, imm=4), I('addi', 'addi R8, x0, KM1', rd=8, rs1=0, imm=-1), I('addi', 'addi RSP, RSP, K16', rd=2, rs1=2, imm=16),
+        I('addi', 'addi R8, RSP, K4', rd=8, rs1=2, imm=4), I('addi', 'addi RSP, RSP, K16 * 2', rd=2, rs1=2, imm=32), I('andi', 'andi R8, R8, KM1', rd=8, rs1=8, imm=-1),
+        I('lw', 'lw R8, R9, K4', rd=8, rs1=9, imm=4), I('lw', 'lw R8, K4(R9)', rd=8, rs1=9, imm=4), I('lw', 'lw RA, K16(RSP)', rd=1, rs1=2, imm=16),
+        I('sw', 'sw R9, R8, K4', rs1=9, rs2=8, imm=4), I('sw', 'sw R8, K4(R9)', rs1=9, rs2=8, imm=4), I('sw', 'sw RA, K16(RSP)', rs1=2, rs2=1, imm=16),
+        I('add', 'add R8, R8, R9', rd=8, rs1=8, rs2=9), I('add', 'add R8, x0, R9', rd=8, rs1=0, rs2=9), I('sub', 'sub R8, R8, R9', rd=8, rs1=8, rs2=9),
+        I('and', 'and R9, R9, R8', rd=9, rs1=9, rs2=8), I('xor', 'xor R8, R8, x9', rd=8, rs1=8, rs2=9), I('or', 'or x8, R8, R9', rd=8, rs1=8, rs2=9),
+        I('slli', 'slli R8, R8, S3', rd=8, rs1=8, shamt=3), I('srli', 'srli R8, R8, S3', rd=8, rs1=8, shamt=3), I('srai', 'srai R9, R9, 3', rd=9, rs1=9, shamt=3),
+        I('slli', 'slli RA, RA, S3', rd=1, rs1=1, shamt=3), I('lui', 'lui R8, K4', rd=8, imm=4), I('lui', 'lui RA, K16', rd=1, imm=16),
+        I('beq', 'beq R8, x0, K16', rs1=8, rs2=0, imm=16), I('bne', 'bne R9, zero, K4', rs1=9, rs2=0, imm=4), I('jal', 'jal x0, K16', rd=0, imm=16), I('jal', 'jal RA, K16', rd=1, imm=16),
+        I('sub', 'neg R8, R9', rd=8, rs1=0, rs2=9),
+    ]
+    for v, t in ((5, 'K4 + 1'), (4, 'K4'), (16, 'K16'), (-1, 'KM1'), (0x4000, 'K4 << 12'), (0x4004, '(K4 << 12) + K4')):
+        for rd, rt in ((8, 'R8'), (1, 'RA'), (9, 'x9')):
+            it = L.li(rd, v)
+            it['text'] = 'li %s, %s' % (rt, t)
+            out.append(it)
+    return out
+
+
 _CACHE = {}
 
 
 def space(tier):
     if tier not in _CACHE:
-        s = progs.edge_instructions(tier) + pseudo_literals(tier)
+        s = symbolic() * 1 + progs.edge_instructions(tier) + pseudo_literals(tier)
         if tier == 'thorough':
             s += full_ranges()
         _CACHE[tier] = s
@@ -141,7 +169,7 @@ def s2_programs(task):
     if task['kind'] == 'c03':
         yield from c03.s2_programs(task)
     else:
-        yield space(task['tier'])[task['lo']:task['hi']]
+        yield PRELUDE + space(task['tier'])[task['lo']:task['hi']]
 
 
 def describe(tier):
